@@ -73,6 +73,10 @@ CLEAN = [
     {'name': 'cascades-then-late-one-to-one-refusal', 'schema': 'S2',
      'ops': [["new", 0, 1, [[8, ["i", 0]]]], ["new", 4, 1, [[1, ["o", 0]]]], ["new", 6, 1, [[1, ["o", 0]]]], ["new", 5, 1, [[1, ["o", 0]]]],
              ["commit"], ["del", 0], ["del", 2], ["del", 0]]},
+    # many-to-many, both sides: an assignment that removes one partner and then fails on a deleted one must restore both collections
+    {'name': 'm2m-assign-fails-after-removal', 'schema': 'S1',
+     'ops': [["new", 0, 1, [[5, ["i", 0]]]], ["new", 2, 1, [[1, ["os", [0]]]]], ["new", 2, 2, []], ["new", 0, 2, [[5, ["i", 0]], [7, ["os", [1]]]]], ["commit"], ["del", 2],
+             ["set", 0, 7, ["os", [2]]], ["add", 3, 7, [2]], ["del", 3], ["set", 1, 1, ["os", [3]]], ["add", 1, 1, [3]]]},
     {'name': 'set-many-single-closure', 'schema': 'S1',
      'ops': [["new", 0, 1, [[5, ["i", 0]]]], ["new", 3, 1, [[1, ["o", 0]]]], ["new", 1, 1, []], ["setm", 0, [[6, ["o", 2]], [8, ["n"]]]]]},
     {'name': 'cascade-on-column-side-then-deleted-partner', 'schema': 'S3',
